@@ -273,20 +273,34 @@ impl Prop for P {
     fn strategy(tier: Tier) -> BoxedStrategy<Case> {
         let mut p = gens::DagParams::all(tier.pick(60, 250));
         p.min_vars = 0;
-        (
+        let mut pw = gens::DagParams::all(60);
+        pw.consts = gens::fl_moderate();
+        let ordinary = (
             gens::dag(p),
             prop_oneof![2 => Just(None), 3 => vec(any::<u16>(), 1..=8).prop_map(Some)],
             gens::points(1..=5, gens::fl_any()),
             // small budgets (memory traffic) and the default
             prop_oneof![4 => 2usize..=6, 1 => 7usize..BUDGETS.len()],
-        )
-            .prop_map(|(dag, outs, points, budget)| Case {
-                dag,
-                outs,
-                points,
-                budget,
-            })
-            .boxed()
+        );
+        // wide programs at the default budget: every one of the 255 registers in
+        // use (and a few memory slots beyond); register 255 itself stays reserved
+        let wide = (
+            gens::dag_wide(pw, 1..=6, 250..=300, false),
+            prop_oneof![2 => Just(None), 1 => vec(any::<u16>(), 1..=8).prop_map(Some)],
+            gens::points(1..=3, gens::fl_any()),
+            Just(BUDGETS.len() - 1),
+        );
+        let to_case = |(dag, outs, points, budget)| Case {
+            dag,
+            outs,
+            points,
+            budget,
+        };
+        prop_oneof![
+            tier.pick(300, 100) => ordinary.prop_map(to_case),
+            1 => wide.prop_map(to_case),
+        ]
+        .boxed()
     }
 
     fn check(case: &Case, cx: &mut Cx) -> CheckResult {
